@@ -221,6 +221,61 @@ Theorem C13_web_basic_keywords :
   map Some [(0, 0, 0); (192, 192, 192); (128, 128, 128); (255, 255, 255); (128, 0, 0); (255, 0, 0); (128, 0, 128); (255, 0, 255); (0, 128, 0); (0, 255, 0); (128, 128, 0); (255, 255, 0); (0, 0, 128); (0, 0, 255); (0, 128, 128); (0, 255, 255)].
 Proof. exact c13_web_basic_keywords. Qed.
 
+(* the luma weights ARE ITU-R BT.601 in 8 bit fixed point (77/150/29 of 256, i.e. 0.299/0.587/0.114 to within 1/256), rounding 128:
+   a changed weight breaks this proof even if the weights still sum to the divisor *)
+Theorem C13_luma_is_bt601 :
+  (luma_wr = 77 /\ luma_wg = 150 /\ luma_wb = 29 /\ luma_div = 256 /\ luma_round = 128) /\
+  (Z.abs (1000 * luma_wr - 299 * luma_div) <= 1000 /\ Z.abs (1000 * luma_wg - 587 * luma_div) <= 1000 /\
+   Z.abs (1000 * luma_wb - 114 * luma_div) <= 1000).
+Proof. exact c13_luma_is_bt601. Qed.
+
+(* the other literals read from the source (SHIFT, 0.5 constant, binary thresholds, gray maxima, the types that the luma conversions
+   and with_rgb888 go through) have their documented values *)
+Theorem C13_constants_pinned :
+  cc_shift = 24 /\ cc_half_base = 1 /\ cc_half_sub = 1 /\ rgb_bin_threshold = 128 /\
+  gray_max_base = 255 /\ gray_max_bits = 8 /\ gray_50_base = 128 /\ gray_50_bits = 8 /\
+  gray_black_arg = 0 /\ gray_white_arg = 255 /\ bin_from_zero = 0 /\ bin_raw_off = 0 /\ bin_raw_on = 1 /\
+  c_name via_rgb = [82; 103; 98; 56; 56; 56] /\ c_name via_gray = [71; 114; 97; 121; 56] /\ c_name web_src = [82; 103; 98; 56; 56; 56].
+Proof. exact c13_constants_pinned. Qed.
+
+(* BinaryColor -> X is monotone in every channel (Off <= On |-> black <= white) *)
+Theorem C13_binary_to_any_mono : forall a b, In (FBinAny, a, b) conv_pairs -> forall c1 c2, valid a c1 -> valid a c2 -> c1 <= c2 ->
+  (is_rgb b = true -> get_r b (convert FBinAny a b c1) <= get_r b (convert FBinAny a b c2) /\
+                      get_g b (convert FBinAny a b c1) <= get_g b (convert FBinAny a b c2) /\
+                      get_b b (convert FBinAny a b c1) <= get_b b (convert FBinAny a b c2)) /\
+  (is_gray b = true -> luma_of b (convert FBinAny a b c1) <= luma_of b (convert FBinAny a b c2)).
+Proof. exact c13_binary_to_any_mono. Qed.
+
+(* the seven conversion families partition the 182 conversions: 90 + 6 + 30 + 30 + 13 + 3 + 10 *)
+Theorem C13_family_census :
+  map (fun f => length (filter (fun p => match fst (fst p), f with
+                                         | FRgbRgb, FRgbRgb | FGrayGray, FGrayGray | FGrayRgb, FGrayRgb | FRgbGray, FRgbGray
+                                         | FBinAny, FBinAny | FGrayBin, FGrayBin | FRgbBin, FRgbBin => true
+                                         | _, _ => false end) conv_pairs))
+      [FRgbRgb; FGrayGray; FGrayRgb; FRgbGray; FBinAny; FGrayBin; FRgbBin] = [90; 6; 30; 30; 13; 3; 10]%nat.
+Proof. exact c13_family_census. Qed.
+
+(* RGB -> Gray, second stage: the result is the representable value nearest to the scaled 8 bit luma *)
+Theorem C13_rgb_gray_second_stage_nearest : forall a b, In (FRgbGray, a, b) conv_pairs -> forall c, valid a c ->
+  2 * Z.abs (luma_of b (convert FRgbGray a b c) * 255 - luma_via a c * max_luma b) <= 255.
+Proof. exact c13_rgb_gray_second_stage_nearest. Qed.
+
+(* RGB -> Gray end to end against EXACT arithmetic: with luma_num / luma_den the exactly scaled BT.601 luma of the source channels
+   (a fraction of full scale), the result is within 1/2 + max_luma/255 target steps of it (0.51 for Gray2, 0.56 for Gray4), and
+   within 1 step for Gray8.  PARTIAL: the property's "error at most half a step" is false for this family (next theorem) *)
+Theorem C13_rgb_gray_error_bound_partial : forall a b, In (FRgbGray, a, b) conv_pairs -> forall c, valid a c ->
+  let o := luma_of b (convert FRgbGray a b c) in
+  0 < luma_den a /\ 0 <= luma_num a c <= luma_den a /\
+  2 * 255 * Z.abs (o * luma_den a - max_luma b * luma_num a c) <= (2 * max_luma b + 255) * luma_den a /\
+  (max_luma b = 255 -> Z.abs (o * luma_den a - max_luma b * luma_num a c) <= luma_den a).
+Proof. exact c13_rgb_gray_error_bound_partial. Qed.
+
+(* machine-checked witness that half-a-step accuracy does NOT hold for RGB -> Gray: Rgb565 (7, 11, 20) -> Gray8 = 63, exact 62.04 *)
+Theorem C13_rgb_gray_nearest_refuted :
+  exists a b c, In (FRgbGray, a, b) conv_pairs /\ valid a c /\
+    2 * Z.abs (luma_of b (convert FRgbGray a b c) * luma_den a - max_luma b * luma_num a c) > luma_den a.
+Proof. exact c13_rgb_gray_nearest_refuted. Qed.
+
 (* the quantifier: 182 provided conversions = every ordered pair of distinct built-in types, between table rows, no duplicates *)
 Theorem C13_pairs_census :
   length conv_pairs = 182%nat /\
